@@ -309,7 +309,11 @@ func (g *pgen) node(n int) string {
 	case 7: // component call
 		return in + "@" + g.call() + "\n"
 	case 8: // component call with children
-		return in + "@" + g.call() + " {\n" + g.node(n+1) + in + "}\n"
+		cl := g.call()
+		for !strings.HasSuffix(cl, ")") { // "@T{…} {" and "@a[0] {" do not take a block
+			cl = g.call()
+		}
+		return in + "@" + cl + " {\n" + g.node(n+1) + in + "}\n"
 	case 9: // void / self-closing elements
 		return in + g.pick("<br/>", "<hr/>", "<input"+g.attrs(n, "input", false)+"/>", "<img"+g.attrs(n, "img", g.multi())+"/>") + "\n"
 	case 10:
@@ -348,7 +352,22 @@ func (g *pgen) node(n int) string {
 }
 
 func (g *pgen) call() string {
-	switch g.r.Intn(4) {
+	switch g.r.Intn(10) {
+	case 4: // function literal as the component expression
+		if g.multi() {
+			return "func(" + g.ident() + " string) templ.Component {\n" + g.ind(3) + "return " + g.ident() + "(" + g.expr(2) + ")\n" + g.ind(2) + "}(" + g.expr(2) + ")"
+		}
+		return "func() templ.Component { return " + g.ident() + " }()"
+	case 5: // index expressions
+		return g.pick(g.ident()+"[0]", g.ident()+"["+g.str()+"]", g.ident()+"["+g.ident()+"]."+g.ident()+"()", g.ident()+"["+g.str()+"]("+g.expr(2)+")")
+	case 6: // package / selector chains
+		return g.ident() + "." + g.ident() + "." + g.ident() + "(" + g.expr(2) + ")." + g.ident() + "()"
+	case 7: // bare composite literal, parenthesised callee, generic instantiation
+		return g.pick(g.ident()+"{"+g.asciiIdent()+": "+g.expr(2)+"}", "("+g.ident()+")("+g.expr(2)+")", g.ident()+"[int]("+g.expr(2)+")")
+	case 8: // function literal among the arguments
+		return g.ident() + "(func() string { return " + g.str() + " }(), '}', " + g.expr(2) + ")"
+	case 9:
+		return g.ident() + "(" + g.ident() + "...)"
 	case 0:
 		return g.ident() + "(" + g.expr(1) + ")"
 	case 1:
